@@ -3,6 +3,8 @@ import F1Verif.Model.MiniGo
 import F1Verif.Model.Distribution
 import F1Verif.Model.Staged
 import F1Verif.Drive.Gaussian
+import F1Verif.Drive.Handle
+import F1Verif.Drive.Plan
 import F1Verif.Generated.MiniGo
 /-!
 Driver ops `mg.*`: the MiniGo programs regenerated from /repo are *executed* (binary64 arithmetic) on the same cases
@@ -251,5 +253,122 @@ def mgGauss (args impl : List String) : Option (String × String) := do
     | none => pure (s!"{chi} {c0} {intsTok r.1.toList} {pdfs}", "ok")
   | _, ["err"] => pure ("err", "ok")
   | _, _ => none
+
+
+/-! #### programs with loops over slices, dynamic calls and panics -/
+
+def mgRefs (n : Nat) : List (List (String × Val Float)) := (List.range n).map fun k => [("", Val.ref k)]
+
+/-- the function values logged by the dynamic calls of a finished program, in call order -/
+def mgInvoked (s : State Float) : List Nat :=
+  ((lookup "$dyn" s.arrs).getD []).filterMap fun (rec : List (String × Val Float)) =>
+    match lookup "0" rec with | some (Val.ref k) => some k | _ => none
+
+/-- the oracle of a run of components: component `k` panics iff `stops k` -/
+def mgStopExt (stops : Nat → Bool) : Ext Float := fun f _ args =>
+  if f = "$dyn.panics" then (match args with | .ref k :: _ => .bool (stops k) | _ => .bool false)
+  else if f = "$dyn" then (match args with | _ :: .ref k :: _ => .ref k | _ => .nil)   -- a component's setup returns "its" iteration function
+  else .nil
+
+/-- which components the generated closure calls, given which of them stop -/
+def mgCombineIter (ps : List F1.Handle.Prog) : Except String (List Nat) :=
+  match exec (mgStopExt fun k => (ps.getD k []).stops) (ps.length + 2) combine_iter_body
+      ⟨[("darg0", .ref 999)], [], [], [], [("run", mgRefs ps.length)]⟩ with
+  | .normal s | .returned _ s | .panicked s => .ok (mgInvoked s)
+  | .error m => .error m
+
+def mgCombineSetup (ps : List F1.Handle.Prog) : Except String (List Nat × Nat) :=
+  match exec (mgStopExt fun k => (ps.getD k []).stops) (ps.length + 2) combine_setup_body
+      ⟨[("carg0", .ref 999)], [], [], [], [("arg0", mgRefs ps.length)]⟩ with
+  | .normal s | .returned _ s | .panicked s => .ok (mgInvoked s, ((lookup "run" s.arrs).getD []).length)
+  | .error m => .error m
+
+/-- the order in which the generated `T.teardown` calls the cleanups on the stack `ids` (registration order) -/
+def mgTeardown (cleanups : Nat → F1.Handle.Prog) (ids : List Nat) : Except String (List Nat) :=
+  match exec (mgStopExt fun k => (cleanups k).stops) (ids.length + 2) t_teardown
+      ⟨[("recv.tearingDown", .bool false)], [], [], [], [("recv.teardownStack", ids.map fun k => [("", Val.ref k)])]⟩ with
+  | .normal s => .ok (mgInvoked s)
+  | .returned _ s | .panicked s => .error s!"teardown did not end normally after {(mgInvoked s).length} cleanups"
+  | .error m => .error m
+
+/-- `mg.scn <iters> <components> <cleanups>` — the generated `CombineScenarios` closures decide which components run in
+setup and in each iteration, the generated `T.teardown` the order of the cleanups; the implementation's event log must
+show exactly those setup, body and cleanup events -/
+def mgScn (args impl : List String) : Option (String × String) := do
+  match args, impl with
+  | [iters, comps, cleanups], log :: _ =>
+    let c ← parseScn iters comps cleanups
+    let evs ← (log.splitOn ",").mapM parseEv
+    let same := " ".intercalate impl
+    let bad (m : String) : Option (String × String) := some ("mg-mismatch:" ++ m.replace " " "_", "ok")
+    let sc := c.sc
+    -- setup
+    let (sIdx, kept) ← match mgCombineSetup sc.setups with | .ok r => some r | .error _ => none
+    let implS := evs.filterMap fun e => match e with | .setup k => some k | _ => none
+    if implS ≠ sIdx then return ← bad s!"setup components {sIdx}"
+    let setupStopped := sIdx.any fun k => (sc.setups.getD k []).stops
+    if kept ≠ (if setupStopped then sIdx.length - 1 else sIdx.length) then return ← bad s!"kept {kept}"
+    -- cleanups of the setup handle run after the teardown marker
+    let after := (evs.dropWhile (· ≠ .teardown)).drop 1
+    let setupRegs := sIdx.flatMap fun k => F1.Handle.registered (sc.setups.getD k [])
+    match mgTeardown sc.cleanups setupRegs with
+    | .error m => return ← bad m
+    | .ok order => if F1.Handle.cleanupIds after ≠ order then return ← bad s!"setup cleanups {order}"
+    if compsMark sc.setups then return (same, "ok")
+    -- iterations
+    let mut rest := (evs.takeWhile (· ≠ .teardown)).dropWhile fun e => match e with | .setup _ => true | .log _ => true | _ => false
+    for j in [0:c.iters] do
+      let i := j + 1
+      let seg := rest.takeWhile (· ≠ .ran i)
+      rest := rest.drop (seg.length + 1)
+      let ps := sc.bodies i
+      match mgCombineIter ps with
+      | .error m => return ← bad m
+      | .ok idx =>
+        let implB := seg.filterMap fun e => match e with | .body i' k => if i' = i then some k else none | _ => none
+        if implB ≠ idx then return ← bad s!"iteration {i} components {idx}"
+        let regs := idx.flatMap fun k => F1.Handle.registered (ps.getD k [])
+        match mgTeardown sc.cleanups regs with
+        | .error m => return ← bad m
+        | .ok order => if F1.Handle.cleanupIds seg ≠ order then return ← bad s!"iteration {i} cleanups {order}"
+    pure (same, "ok")
+  | _, _ => none
+
+/-- `mg.plan <now> <top> <default> <stage>…` — the generated `ParseConfigFile` run on an accepted configuration: the
+per-stage functions are externals (every stage validates and parses; a validated stage lasts its own duration or the
+default's); which stages it keeps, in which order, and the total duration must be what the implementation's plan shows -/
+def mgPlan (args impl : List String) : Option (String × String) := do
+  match args, impl with
+  | now :: top :: dflt :: stages, "ok" :: sc :: _total :: maxdur :: conc :: maxit :: maxfail :: maxfailrate :: ign :: st :: restTok =>
+    let now ← now.toInt?
+    let t := kvs top
+    let start : Option Int ← (match getK t "start" with | none => some none | some v => v.toInt?.map some)
+    let d ← parseStageCfg dflt
+    let cfgs ← stages.mapM parseStageCfg
+    let durs := cfgs.map fun s => ((F1.Plan.inh s.duration d.duration).getD 0)
+    let ext : Ext Float := fun f n a =>
+      if f = "validateCommonFieldsOfStage" then (match a with | .int 0 :: .ref k :: _ => .ref k | _ => .nil)
+      else if f = "parseStage" then (match a with | .int 0 :: _ => .ref (1000 + n) | _ => .nil)
+      else if f = "Duration" then (match a with | [.ref k] => .int (durs.getD k 0) | _ => .nil)
+      else if f = "StageStart" then optInt start
+      else if f = "yaml.Unmarshal" then .nil
+      else if f = "validateCommonFields" then (match a with | .int 0 :: _ => .ref 999 | _ => .nil)
+      else .nonNil
+    let s0 : State Float := ⟨[("arg0", .nonNil), ("arg1", .int now)], [], [], [], [("validatedConfigFile.Stages", mgRefs cfgs.length)]⟩
+    match runFn ext (cfgs.length + 2) file_ParseConfigFile s0 with
+    | .error m => pure (mgErr m, "ok")
+    | .ok (vals, s) =>
+      match vals, s.get "$ret.stagesTotalDuration" with
+      | [.nonNil, .nil], some (.int total) =>
+        let keptIdx := ((lookup "parseStage" s.arrs).getD []).filterMap fun (rec : List (String × Val Float)) =>
+          match lookup "0" rec with | some (Val.ref k) => some k | _ => none
+        let implStages := if st = "-" then [] else st.splitOn ";"
+        let stTok := if keptIdx.isEmpty then "-" else
+          ";".intercalate ((keptIdx.zip (implStages ++ List.replicate keptIdx.length "?")).map fun (k, tok) =>
+            "/".intercalate (toString (durs.getD k 0) :: (tok.splitOn "/").drop 1))
+        let stTok := if keptIdx.length ≠ implStages.length then s!"{stTok};kept={keptIdx}" else stTok
+        pure (" ".intercalate (["ok", sc, toString total, maxdur, conc, maxit, maxfail, maxfailrate, ign, stTok] ++ restTok), "ok")
+      | _, _ => pure ("mg-error:plan-not-produced", "ok")
+  | _, _ => pure (" ".intercalate impl, "ok")      -- refused configurations: not the loop's business
 
 end F1.Drive
